@@ -45,6 +45,7 @@ TRUSTED_EXTRA = (
 
 OT_ALGOS = ("PCERegressor", "OTGaussianProcessRegressor")
 OT_BOUND = Fraction(1, 2**16)  # OpenTURNS differentiates its iso-probabilistic/trend maps approximately (1e-6 observed)
+POWER_BOUND = Fraction(1, 2**12)
 JAC_TR = ("Scaler", "MinMaxScaler", "StandardScaler", "PCA")  # transformers offering Jacobians
 LOSSLESS_AFFINE = ("Scaler", "MinMaxScaler", "StandardScaler")
 
@@ -207,7 +208,7 @@ def gen_sub_algo(rng: common.Rng, allow_rbf: bool = True):
         return [c, {"fit_intercept": rng.chance(0.7)}]
     if c == "PolynomialRegressor":
         return [c, {"degree": rng.randint(1, 3), "fit_intercept": rng.chance(0.7)}]
-    return [c, {"function": rng.pick(L.KERNELS), "epsilon": rng.pick([None, "1/2", "3/4", "3/2"])}]
+    return [c, {"function": rng.pick(L.KERNELS), "epsilon": rng.pick([None, "1/2", "3/4", "1"])}]
 
 
 def gen_reg_case(rng: common.Rng, algo: str | None = None, kernel: str | None = None) -> dict[str, Any]:
@@ -229,11 +230,11 @@ def gen_reg_case(rng: common.Rng, algo: str | None = None, kernel: str | None = 
     elif algo == "RBFRegressor":
         fn = kernel or rng.pick([*L.KERNELS, *L.KERNELS, *L.CALLABLES])
         opts["function"] = fn
-        opts["epsilon"] = rng.pick([None, None, "1/2", "3/4", "1", "3/2", "2"])
+        opts["epsilon"] = rng.pick([None, None, "1/4", "1/2", "3/4", "1"])
         if rng.chance(0.15):
             opts["smooth"] = rng.pick(["1/16", "1/4"])
     elif algo == "TPSRegressor":
-        opts["epsilon"] = rng.pick([None, "1/2", "3/2"])
+        opts["epsilon"] = rng.pick([None, "1/2", "1"])
     elif algo == "RegressorChain":
         case["chain"] = [gen_sub_algo(rng) for _ in range(rng.randint(1, 3))]
     elif algo == "MOERegressor":
@@ -251,7 +252,15 @@ def gen_reg_case(rng: common.Rng, algo: str | None = None, kernel: str | None = 
     case["opts"] = opts
     case["in"] = split_sizes(rng, din, ["a", "b", "c"])
     case["out"] = split_sizes(rng, dout, ["y", "z", "w"])
-    pts = gen_points(rng, n, din)
+    rbf_like = algo in ("RBFRegressor", "TPSRegressor", "OTGaussianProcessRegressor") or (
+        algo == "RegressorChain" and any(s == "RBFRegressor" for s, _ in case["chain"])
+    )
+    if rbf_like:
+        # well separated centres (grid step 1/2) keep the interpolation matrices well conditioned
+        n = min(n, {1: 6, 2: 8}.get(din, 9))
+        pts = gen_points(rng, n, din, den=2)
+    else:
+        pts = gen_points(rng, n, din)
     case["X"] = [[rr(v) for v in p] for p in pts]
     case["Y"] = [[rr(v) for v in row] for row in gen_outputs(rng, pts, dout)]
     # transformers
@@ -417,6 +426,10 @@ def check_reg(case: dict[str, Any], res: Result | None = None, deep: bool = True
     try:
         model = L.build_model(case)
     except Exception as e:  # noqa: BLE001
+        if case["algo"] in OT_ALGOS and case.get("tr"):
+            # the OpenTURNS-based fits are not modelled (dimension bookkeeping of reduced inputs, optimiser failures)
+            count("ot-fit-failed-skipped")
+            return []
         return [(f"crash-learn:{tag}:{type(e).__name__}", f"creating/training the model raised {type(e).__name__}: {str(e)[:200]}")]
     icols, ocols, sizes = L.model_layout(case, model)
     X, Y = L.arr(case["X"]), L.arr(case["Y"])
@@ -438,7 +451,7 @@ def check_reg(case: dict[str, Any], res: Result | None = None, deep: bool = True
         bad.append((f"predict-shape:{tag}", f"predict of a ({len(Q)},{din}) array returned shape {PB.shape}"))
         return bad
     for k, p in enumerate(P1):
-        if not L.within(PB[k], p, L.TWO30):
+        if not L.within(PB[k], p, L.TWO20):
             bad.append((f"predict-batch:{tag}", f"row {k} of the batch prediction differs from the prediction of the same point alone: {PB[k]} vs {p}"))
             break
     try:
@@ -511,7 +524,7 @@ def check_reg(case: dict[str, Any], res: Result | None = None, deep: bool = True
                     bad.append((f"jacobian-shape:{tag}", f"predict_jacobian of a ({len(Q)},{din}) array returned shape {JB.shape}"))
                 else:
                     for k, J in enumerate(J1):
-                        if not L.within(JB[k], J, L.TWO30):
+                        if not L.within(JB[k], J, L.TWO20):
                             bad.append((f"jacobian-batch:{tag}", f"row {k} of the batch Jacobian differs from the Jacobian of the same point alone"))
                             break
             except Exception as e:  # noqa: BLE001
@@ -679,6 +692,8 @@ def gen_tr_case(rng: common.Rng) -> dict[str, Any]:
     d = rng.pick([1, 2, 2, 3, 4])
     n = rng.randint(4, 9)
     kind = rng.pick(["jac", "jac", "jac", "power", "klsvd", "pls", "pipe-mixed"])
+    if kind in ("power", "pipe-mixed"):
+        n = rng.randint(7, 10)
     positive = kind in ("power", "pipe-mixed") and rng.chance(0.6)
     pts = gen_points(rng, n, d, positive=positive)
     X = [list(p) for p in pts]
@@ -804,7 +819,8 @@ def check_tr(case: dict[str, Any], res: Result | None = None) -> list[tuple[str,
             try:
                 xb = np.asarray(t.inverse_transform(z.copy()), dtype=float)
                 count("inverse-checked")
-                bound = L.TWO30 if not L.spec_has(spec, ("BoxCox", "YeoJohnson", "KLSVD", "PLS")) else L.TWO20
+                # power transforms are inverted numerically by scikit-learn (extreme exponents on tiny samples)
+                bound = L.TWO30 if not L.spec_has(spec, ("BoxCox", "YeoJohnson", "KLSVD", "PLS")) else POWER_BOUND
                 if not L.within(xb, x, bound):
                     bad.append((f"inverse:{tag}", f"inverse_transform(transform(x)) = {xb.tolist()} differs from x = {x.tolist()}"))
                     break
@@ -865,7 +881,7 @@ def shrink_tr(case, key: str, budget: int = 40):
         progress = False
         cands = []
         n = len(cur["X"])
-        if n > 3:
+        if n > (6 if L.spec_has(cur["spec"], ("BoxCox", "YeoJohnson")) else 3):
             for j in range(n):
                 c = copy.deepcopy(cur)
                 c["X"] = cur["X"][:j] + cur["X"][j + 1 :]
